@@ -7,6 +7,7 @@ import (
 	"io"
 	"sort"
 	"testing"
+	"time"
 
 	"github.com/tsenart/vegeta/v12/internal/zzverif/vgen"
 	"github.com/tsenart/vegeta/v12/internal/zzverif/vh"
@@ -17,8 +18,39 @@ import (
 // C09 — a truncated result stream decodes to a clean prefix.
 
 type c09Case struct {
-	Results []vegeta.Result
-	Seed    uint64 // selects interior cut offsets for streams too large to cut everywhere
+	Results  []vegeta.Result
+	Seed     uint64 // selects interior cut offsets for streams too large to cut everywhere
+	PoisonAt int    // >= 0: before this record the JSON encoder is handed a result it cannot encode (year 12000): a failed Encode call must not leave anything behind
+}
+
+// c09Encode encodes rs one call at a time; only records whose Encode call succeeded
+// count as written. ends[i] is the stream length after the i-th successful call.
+func c09Encode(codec vgen.Codec, c c09Case) (data []byte, ends []int, written []vegeta.Result, err error) {
+	var buf bytes.Buffer
+	enc := codec.Enc(&buf)
+	for i := range c.Results {
+		if codec.Name == "json" && c.PoisonAt == i {
+			bad := c.Results[i]
+			bad.Timestamp = time.Date(12000, 1, 1, 0, 0, 0, 0, time.UTC)
+			before := buf.Len()
+			if perr := enc.Encode(&bad); perr == nil {
+				return nil, nil, nil, fmt.Errorf("harness assumption broken: the JSON encoder accepted a year-12000 timestamp")
+			}
+			if buf.Len() != before {
+				return nil, nil, nil, fmt.Errorf("json: a failed Encode call wrote %d bytes to the stream", buf.Len()-before)
+			}
+		}
+		r := c.Results[i]
+		if eerr := enc.Encode(&r); eerr != nil {
+			if codec.Name == "json" && c.PoisonAt >= 0 && c.PoisonAt <= i {
+				continue // an encoder that refuses everything after a failure writes nothing: still a clean stream
+			}
+			return nil, nil, nil, fmt.Errorf("%s encode record %d: %w", codec.Name, i, eerr)
+		}
+		ends = append(ends, buf.Len())
+		written = append(written, c.Results[i])
+	}
+	return buf.Bytes(), ends, written, nil
 }
 
 const c09AllOffsetsLimit = 16 << 10
@@ -66,7 +98,7 @@ func runC09(c c09Case) error {
 func evalC09(c c09Case) (c09Stats, error) {
 	var st c09Stats
 	for _, codec := range vgen.Codecs {
-		data, ends, err := vgen.EncodeAll(codec, c.Results)
+		data, ends, written, err := c09Encode(codec, c)
 		if err != nil {
 			return st, err
 		}
@@ -79,15 +111,15 @@ func evalC09(c c09Case) (c09Stats, error) {
 		for _, cut := range offs {
 			// records completely written before the cut
 			k := sort.SearchInts(ends, cut+1) // number of ends <= cut
-			got, derr := vgen.DecodeAll(codec.Dec(bytes.NewReader(data[:cut])), len(c.Results)+1)
+			got, derr := vgen.DecodeAll(codec.Dec(bytes.NewReader(data[:cut])), len(written)+1)
 			st.prefixes++
 			if derr == nil {
 				return st, fmt.Errorf("%s cut at %d/%d: decoder did not end", codec.Name, cut, len(data))
 			}
 			if len(got) != k {
-				return st, fmt.Errorf("%s stream of %d records (record ends %v) cut at byte %d: decoded %d records then %v, but exactly %d were completely written", codec.Name, len(c.Results), ends, cut, len(got), derr, k)
+				return st, fmt.Errorf("%s stream of %d records (record ends %v) cut at byte %d: decoded %d records then %v, but exactly %d were completely written", codec.Name, len(written), ends, cut, len(got), derr, k)
 			}
-			if d := vgen.DiffResults(c.Results[:k], got); d != "" {
+			if d := vgen.DiffResults(written[:k], got); d != "" {
 				return st, fmt.Errorf("%s stream cut at byte %d: decoded record differs from the one written: %s", codec.Name, cut, d)
 			}
 			// a cut exactly at a boundary (every point between Encode calls) is a clean end
@@ -107,9 +139,12 @@ func TestC09Truncation(t *testing.T) {
 	vh.Regress(t, "C09")
 	vh.Check(t, 25, 400, func(t *rapid.T) {
 		big := rapid.IntRange(0, 7).Draw(t, "big") == 0
-		c := c09Case{Results: vgen.Results(t, "rs", 1, 10, vgen.ResultOpts{AllowLargeBody: big}), Seed: rapid.Uint64().Draw(t, "seed")}
+		c := c09Case{Results: vgen.Results(t, "rs", 1, 10, vgen.ResultOpts{AllowLargeBody: big}), Seed: rapid.Uint64().Draw(t, "seed"), PoisonAt: -1}
 		if rapid.IntRange(0, 5).Draw(t, "more") == 0 {
 			c.Results = append(c.Results, vgen.Results(t, "rs2", 5, 15, vgen.ResultOpts{})...)
+		}
+		if rapid.IntRange(0, 4).Draw(t, "poison") == 0 {
+			c.PoisonAt = rapid.IntRange(0, len(c.Results)-1).Draw(t, "poisonat")
 		}
 		var (
 			st  c09Stats
@@ -121,6 +156,9 @@ func TestC09Truncation(t *testing.T) {
 		labels := []string{}
 		if big {
 			labels = append(labels, "large-body")
+		}
+		if c.PoisonAt >= 0 {
+			labels = append(labels, "failed-encode-call-in-between")
 		}
 		vh.Case("C09.truncation", string(sig), nt, labels...)
 		vh.Count("C09.truncation", "prefixes_decoded", st.prefixes)
